@@ -24,6 +24,10 @@ type runTracerouteOnceFnType func(ctx context.Context, params TracerouteParams, 
 var runTracerouteOnceFn = runTracerouteOnce
 
 func runTracerouteOnce(ctx context.Context, params TracerouteParams, destinationPort int) (*result.TracerouteRun, error) {
+	// the TTLs below are narrowed to uint8: reject values that would wrap
+	if params.MinTTL < 1 || params.MaxTTL > 255 || params.MinTTL > params.MaxTTL {
+		return nil, fmt.Errorf("invalid TTL range [%d, %d]: need 1 <= min <= max <= 255", params.MinTTL, params.MaxTTL)
+	}
 	var trRun *result.TracerouteRun
 	switch params.Protocol {
 	case "udp":
